@@ -49,6 +49,7 @@ const JR_REG: u32 = 25; // $t9: register of the jr with manual edges, never writ
 enum Arch {
     Mips,
     Mipsel,
+    Ppc,
 }
 
 impl Arch {
@@ -56,37 +57,50 @@ impl Arch {
         match self {
             Arch::Mips => "mips",
             Arch::Mipsel => "mipsel",
+            Arch::Ppc => "ppc",
         }
     }
     fn parse(s: &str) -> Arch {
         match s {
             "mips" => Arch::Mips,
             "mipsel" => Arch::Mipsel,
+            "ppc" => Arch::Ppc,
             _ => panic!("unknown arch {}", s),
         }
     }
     fn bytes(self, w: u32) -> [u8; 4] {
         match self {
             Arch::Mipsel => w.to_le_bytes(),
-            Arch::Mips => w.to_be_bytes(),
+            _ => w.to_be_bytes(),
         }
     }
     fn word(self, b: &[u8]) -> u32 {
         match self {
             Arch::Mipsel => u32::from_le_bytes([b[0], b[1], b[2], b[3]]),
-            Arch::Mips => u32::from_be_bytes([b[0], b[1], b[2], b[3]]),
+            _ => u32::from_be_bytes([b[0], b[1], b[2], b[3]]),
+        }
+    }
+    fn is_mips(self) -> bool {
+        self != Arch::Ppc
+    }
+    fn gpr_name(self, i: usize) -> String {
+        if self.is_mips() {
+            MIPS_NAMES[i].to_string()
+        } else {
+            format!("r{}", i)
         }
     }
     fn endian(self) -> Endian {
         match self {
             Arch::Mipsel => Endian::Little,
-            Arch::Mips => Endian::Big,
+            _ => Endian::Big,
         }
     }
     fn translator(self) -> Box<dyn Translator> {
         match self {
             Arch::Mips => Box::new(falcon::translator::mips::Mips::new()),
             Arch::Mipsel => Box::new(falcon::translator::mips::Mipsel::new()),
+            Arch::Ppc => Box::new(falcon::translator::ppc::Ppc::new()),
         }
     }
 }
@@ -97,6 +111,9 @@ const MIPS_NAMES: [&str; 32] = [
     "$fp", "$ra",
 ];
 
+fn cr_name(i: usize) -> String {
+    format!("cr{}-{}", i / 4, ["lt", "gt", "eq", "so"][i % 4])
+}
 fn l32(v: u32) -> Value {
     json!(v.to_le_bytes())
 }
@@ -118,10 +135,11 @@ fn cval(c: Option<&il::Constant>) -> Value {
 }
 fn asm(arch: Arch, addr: u32, word: u32) -> String {
     let mode = match arch {
-        Arch::Mips => capstone::CS_MODE_32 | capstone::CS_MODE_BIG_ENDIAN,
         Arch::Mipsel => capstone::CS_MODE_32 | capstone::CS_MODE_LITTLE_ENDIAN,
+        _ => capstone::CS_MODE_32 | capstone::CS_MODE_BIG_ENDIAN,
     };
-    let cs = match capstone::Capstone::new(capstone::cs_arch::CS_ARCH_MIPS, mode) {
+    let cs_arch = if arch.is_mips() { capstone::cs_arch::CS_ARCH_MIPS } else { capstone::cs_arch::CS_ARCH_PPC };
+    let cs = match capstone::Capstone::new(cs_arch, mode) {
         Ok(cs) => cs,
         Err(_) => return "?".into(),
     };
@@ -147,8 +165,10 @@ struct Prog {
 #[derive(Clone)]
 struct Init {
     gpr: [u32; 32],
-    hi: u32,
-    lo: u32,
+    hi: u32, // ppc: lr
+    lo: u32, // ppc: ctr
+    ca: u8,
+    cr: [u8; 32],
     win: u32,
     mem0: Vec<u8>,
     n: usize,
@@ -273,8 +293,17 @@ fn run_event(p: &Prog, f: &il::Function, init: &Init) -> Value {
     let mut ev = json!({
         "ev": "run", "n": init.n,
         "gpr": init.gpr.iter().map(|v| l32(*v)).collect::<Vec<_>>(),
-        "hi": l32(init.hi), "lo": l32(init.lo), "win": l32(init.win), "mem0": init.mem0,
+        "win": l32(init.win), "mem0": init.mem0,
     });
+    if arch.is_mips() {
+        ev["hi"] = l32(init.hi);
+        ev["lo"] = l32(init.lo);
+    } else {
+        ev["lr"] = l32(init.hi);
+        ev["ctr"] = l32(init.lo);
+        ev["ca"] = json!(init.ca);
+        ev["cr"] = json!(init.cr.to_vec());
+    }
     let mut program = il::Program::new();
     program.add_function(f.clone());
     let loc: il::ProgramLocation = match guard(|| match il::RefProgramLocation::from_function(program.function(0).unwrap()) {
@@ -289,20 +318,31 @@ fn run_event(p: &Prog, f: &il::Function, init: &Init) -> Value {
         }
     };
     let mut state = State::new(Memory::new_with_backing(arch.endian(), RC::new(p.backing(Some((init,))))));
-    for i in 1..32 {
-        state.set_scalar(MIPS_NAMES[i], il::const_(init.gpr[i] as u64, 32));
+    for i in (if arch.is_mips() { 1 } else { 0 })..32 {
+        state.set_scalar(arch.gpr_name(i), il::const_(init.gpr[i] as u64, 32));
     }
-    state.set_scalar("$hi", il::const_(init.hi as u64, 32));
-    state.set_scalar("$lo", il::const_(init.lo as u64, 32));
+    if arch.is_mips() {
+        state.set_scalar("$hi", il::const_(init.hi as u64, 32));
+        state.set_scalar("$lo", il::const_(init.lo as u64, 32));
+    } else {
+        state.set_scalar("lr", il::const_(init.hi as u64, 32));
+        state.set_scalar("ctr", il::const_(init.lo as u64, 32));
+        state.set_scalar("carry", il::const_(init.ca as u64, 1));
+        for i in 0..32 {
+            state.set_scalar(cr_name(i), il::const_(init.cr[i] as u64, 1));
+        }
+    }
     let arch_rc: RC<dyn Architecture> = match arch {
         Arch::Mips => RC::new(architecture::Mips::new()),
         Arch::Mipsel => RC::new(architecture::Mipsel::new()),
+        Arch::Ppc => RC::new(architecture::Ppc::new()),
     };
     let mut d = Driver::new(RC::new(program), loc, state, arch_rc);
     let (lo, hi) = (p.base as u64, p.base as u64 + 4 * p.words.len() as u64);
     let mut pcs: Vec<u64> = Vec::new(); // raw addresses, logged on change
     let mut natives = 0usize; // aligned addresses started
     let mut steps = 0usize;
+    let mut after_branch = false;
     let out;
     loop {
         let (cur, op) = match guard(|| {
@@ -316,7 +356,10 @@ fn run_event(p: &Prog, f: &il::Function, init: &Init) -> Value {
             }
         };
         if let Some(a) = cur {
-            if pcs.last() != Some(&a) {
+            // a new native instruction starts when the address changes, or right after an executed IL Branch
+            // (an indirect jump may land on its own address)
+            if pcs.last() != Some(&a) || after_branch {
+                after_branch = false;
                 if a % 4 == 0 {
                     if natives == init.n {
                         out = json!({"k": "limit", "npc": l64(a)});
@@ -330,7 +373,7 @@ fn run_event(p: &Prog, f: &il::Function, init: &Init) -> Value {
         if let Some(il::Operation::Branch { target }) = &op {
             match guard(|| d.state().symbolize_and_eval(target)) {
                 Outcome::Ok(c) => match c.value_u64() {
-                    Some(v) if v >= lo && v < hi && v % 4 == 0 => {}
+                    Some(v) if v >= lo && v < hi && v % 4 == 0 => after_branch = true,
                     Some(v) => {
                         out = json!({"k": "exit", "npc": l64(v), "npcw": c.bits()});
                         break;
@@ -383,12 +426,21 @@ fn run_event(p: &Prog, f: &il::Function, init: &Init) -> Value {
         .collect();
     let mut pages: Vec<u64> = st.memory().pages().keys().cloned().collect();
     pages.sort();
-    ev["post"] = json!({
-        "gpr": (0..32).map(|i| cval(st.get_scalar(MIPS_NAMES[i]))).collect::<Vec<_>>(),
-        "hi": cval(st.get_scalar("$hi")), "lo": cval(st.get_scalar("$lo")),
+    let mut post = json!({
+        "gpr": (0..32).map(|i| cval(st.get_scalar(&arch.gpr_name(i)))).collect::<Vec<_>>(),
         "mem1": mem1,
         "pages": pages.iter().map(|p| l64(*p)).collect::<Vec<_>>(),
     });
+    if arch.is_mips() {
+        post["hi"] = cval(st.get_scalar("$hi"));
+        post["lo"] = cval(st.get_scalar("$lo"));
+    } else {
+        post["lr"] = cval(st.get_scalar("lr"));
+        post["ctr"] = cval(st.get_scalar("ctr"));
+        post["ca"] = cval(st.get_scalar("carry"));
+        post["cr"] = json!((0..32).map(|i| cval(st.get_scalar(&cr_name(i)))).collect::<Vec<_>>());
+    }
+    ev["post"] = post;
     ev
 }
 
@@ -601,7 +653,131 @@ fn gen_prog(rng: &mut Rng, arch: Arch) -> Prog {
     Prog { arch, base, entry, words, manual, tmpl: tmpl.join(" ") }
 }
 
+// ---- PPC: the lifter refuses conditional branches, so control flow is b / bl / bctr (+ manual edges) -------
+const PBASE: u32 = 31; // r31: base of the data window, never written by a program
+const PDST: [u32; 10] = [3, 4, 5, 6, 7, 8, 9, 10, 11, 12];
+fn pdst(rng: &mut Rng) -> u32 {
+    let k = if rng.chance(2, 3) { 5 } else { 10 };
+    PDST[rng.below(k) as usize]
+}
+fn ppc_simple(rng: &mut Rng) -> u32 {
+    let (rt, ra, rb) = (pdst(rng), pdst(rng), pdst(rng));
+    let x = |xo: u32| (31u32 << 26) | (rt << 21) | (ra << 16) | (rb << 11) | (xo << 1);
+    let d = |op: u32, imm: u32| (op << 26) | (rt << 21) | (ra << 16) | imm;
+    match rng.below(20) {
+        0 | 1 => d(14, imm16(rng)),                                   // addi
+        2 => (14 << 26) | (rt << 21) | imm16(rng),                    // li
+        3 => d(15, imm16(rng)),                                       // addis
+        4 => (15 << 26) | (rt << 21) | imm16(rng),                    // lis
+        5 | 6 => x(266),                                              // add
+        7 => x(40),                                                   // subf
+        8 => (31 << 26) | (rt << 21) | (ra << 16) | (202 << 1),       // addze
+        9 => (31 << 26) | (rt << 21) | (ra << 16) | ((rng.below(32) as u32) << 11) | (824 << 1), // srawi
+        10 | 11 => (21 << 26) | (rt << 21) | (ra << 16) | ((rng.below(32) as u32) << 11) | ((rng.below(32) as u32) << 6) | ((rng.below(32) as u32) << 1), // rlwinm
+        12 | 13 => (32 << 26) | (rt << 21) | (PBASE << 16) | (4 * rng.below(16) as u32), // lwz
+        14 | 15 => (36 << 26) | (rt << 21) | (PBASE << 16) | (4 * rng.below(16) as u32), // stw
+        16 => (34 << 26) | (rt << 21) | (PBASE << 16) | rng.below(64) as u32,            // lbz
+        17 => (pk!(rng, [11u32, 10]) << 26) | ((rng.below(8) as u32) << 23) | (ra << 16) | imm16(rng), // cmpwi / cmplwi
+        18 => (31 << 26) | (rt << 21) | (ra << 16) | (rt << 11) | (444 << 1),            // mr
+        _ => pk!(rng, [0x6000_0000u32, (31 << 26) | (rt << 21) | (8 << 16) | (339 << 1), (31 << 26) | (rt << 21) | (8 << 16) | (467 << 1)]), // nop / mflr / mtlr
+    }
+}
+
+fn gen_prog_ppc(rng: &mut Rng) -> Prog {
+    let n = match rng.below(6) {
+        0 => rng.range(3, 10),
+        1 | 2 => rng.range(15, 20),
+        3 => rng.range(30, 36),
+        _ => rng.range(6, 44),
+    } as usize;
+    let base: u32 = pk!(rng, [0x1000_0000u32, 0x0040_0000, 0x8000_1000, 0x7fff_ff80]) + 4 * pk!(rng, [0u32, 0, 1, 5, 15, rng.below(16) as u32]);
+    let mut words: Vec<u32> = (0..n).map(|_| ppc_simple(rng)).collect();
+    words[n - 1] = 0x4e80_0420; // bctr: the way out (CTR holds an address outside the code)
+    let entry = if n < 8 || rng.chance(3, 5) { 0 } else { rng.below((n / 2) as u64) as usize };
+    let mut tmpl: Vec<String> = vec!["ppc".into()];
+    let mut manual = Vec::new();
+    let nb = if rng.chance(1, 8) { 0 } else { rng.range(1, 2 + (n / 6) as u64) as usize };
+    let mut taken = vec![false; n];
+    taken[n - 1] = true;
+    for _ in 0..nb {
+        let i = match rng.below(6) {
+            0 => entry + 15,
+            1 => entry + 14,
+            2 => entry + 16,
+            _ => rng.below(n as u64) as usize,
+        };
+        if i >= n - 1 || taken[i] {
+            continue;
+        }
+        taken[i] = true;
+        let t = match rng.below(7) {
+            0 => entry + 15,
+            1 => entry + 16,
+            2 => entry + rng.below(15) as usize + 1,
+            3 if i > 0 => rng.below(i as u64) as usize,
+            4 => i + 1 + rng.below(6) as usize,
+            _ => rng.below(n as u64) as usize,
+        }
+        .min(n - 1);
+        // a one-instruction loop (b .) repeats the same address without a change in between: the address log
+        // of the recorder cannot show it, so it is not generated
+        let t = if t == i { i + 1 } else { t };
+        let li = ((t as i64 - i as i64) as u32) & 0x00ff_ffff;
+        match rng.below(8) {
+            0 | 1 => {
+                words[i] = (18 << 26) | (li << 2) | 1; // bl
+                tmpl.push(format!("bl@{}->{}", i, t));
+            }
+            2 if !tmpl.iter().any(|x| x.starts_with("bctr-manual")) => {
+                words[i] = 0x4e80_0420;
+                for _ in 0..rng.range(1, 3) {
+                    let t2 = rng.below(n as u64) as usize;
+                    if !manual.contains(&(i, t2)) {
+                        manual.push((i, t2));
+                    }
+                }
+                tmpl.push(format!("bctr-manual@{}->{:?}", i, manual.iter().map(|m| m.1).collect::<Vec<_>>()));
+            }
+            _ => {
+                words[i] = (18 << 26) | (li << 2); // b
+                tmpl.push(format!("b@{}->{}", i, t));
+            }
+        }
+    }
+    Prog { arch: Arch::Ppc, base, entry, words, manual, tmpl: tmpl.join(" ") }
+}
+
 fn gen_init(rng: &mut Rng, p: &Prog) -> Init {
+    if p.arch == Arch::Ppc {
+        let mut gpr = [0u32; 32];
+        for g in gpr.iter_mut() {
+            *g = if rng.chance(1, 4) { rng.below(6) as u32 } else { v32(rng) };
+        }
+        let win = pk!(rng, [0x2000_8000u32, 0x7fff_0fe0, 0x2345_67c0, 0x0000_0100]);
+        gpr[PBASE as usize] = win;
+        let mut cr = [0u8; 32];
+        for c in cr.iter_mut() {
+            *c = rng.below(2) as u8;
+        }
+        // CTR: a manual target, another word of the code, or an address outside (ends the run)
+        let ctr = if !p.manual.is_empty() && rng.chance(2, 3) {
+            p.addr(rng.pick(&p.manual).1)
+        } else if rng.chance(1, 5) {
+            p.addr(rng.below(p.words.len() as u64) as usize)
+        } else {
+            pk!(rng, [0x0bad_0000u32, 0x7000_0000, 0])
+        };
+        return Init {
+            gpr,
+            hi: pk!(rng, [0x0bad_0000u32, v32(rng)]),
+            lo: ctr,
+            ca: rng.below(2) as u8,
+            cr,
+            win,
+            mem0: (0..WIN).map(|_| rng.below(256) as u8).collect(),
+            n: pk!(rng, [8usize, 20, 40, 64, 25 + rng.below(60) as usize]),
+        };
+    }
     let mut gpr = [0u32; 32];
     for g in gpr.iter_mut() {
         *g = match rng.below(4) {
@@ -634,6 +810,8 @@ fn gen_init(rng: &mut Rng, p: &Prog) -> Init {
         gpr,
         hi: v32(rng),
         lo: v32(rng),
+        ca: 0,
+        cr: [0u8; 32],
         win,
         mem0: (0..WIN).map(|_| rng.below(256) as u8).collect(),
         n: pk!(rng, [8usize, 20, 40, 64, 25 + rng.below(60) as usize]),
@@ -669,10 +847,19 @@ fn init_from_event(v: &Value) -> Init {
     for (i, g) in v["gpr"].as_array().unwrap().iter().enumerate().take(32) {
         gpr[i] = from_l32(g);
     }
+    let ppc = v.get("lr").is_some();
+    let mut cr = [0u8; 32];
+    if let Some(c) = v["cr"].as_array() {
+        for (i, x) in c.iter().enumerate().take(32) {
+            cr[i] = x.as_u64().unwrap() as u8;
+        }
+    }
     Init {
         gpr,
-        hi: from_l32(&v["hi"]),
-        lo: from_l32(&v["lo"]),
+        hi: from_l32(if ppc { &v["lr"] } else { &v["hi"] }),
+        lo: from_l32(if ppc { &v["ctr"] } else { &v["lo"] }),
+        ca: v["ca"].as_u64().unwrap_or(0) as u8,
+        cr,
         win: from_l32(&v["win"]),
         mem0: v["mem0"].as_array().unwrap().iter().map(|x| x.as_u64().unwrap() as u8).collect(),
         n: v["n"].as_u64().unwrap() as usize,
@@ -686,11 +873,16 @@ fn main() {
     match mode.as_str() {
         "random" => {
             let arch = Arch::parse(&fv::arg_str("arch", "mips"));
-            let mut rng = Rng::new(fv::seed_from_env() ^ (if arch == Arch::Mips { 0xC06_0001u64 } else { 0xC06_0002 } << 24));
+            let salt: u64 = match arch {
+                Arch::Mips => 0xC06_0001,
+                Arch::Mipsel => 0xC06_0002,
+                Arch::Ppc => 0xC06_0003,
+            };
+            let mut rng = Rng::new(fv::seed_from_env() ^ (salt << 24));
             let n = fv::arg_u64("n", 100);
             let runs = fv::arg_u64("runs", 3);
             for id in 0..n {
-                let p = gen_prog(&mut rng, arch);
+                let p = if arch == Arch::Ppc { gen_prog_ppc(&mut rng) } else { gen_prog(&mut rng, arch) };
                 let (ev, f) = begin_event(&p, id);
                 out.emit(&ev);
                 if let Some(f) = f {
